@@ -143,13 +143,17 @@ def gcd(ra1, dec1, ra2, dec2):
     """
     # TODO:  Vincenty formula see -
     # https://en.wikipedia.org/wiki/Great-circle_distance
-    dlon = ra2 - ra1
-    dlat = dec2 - dec1
-    a = np.sin(np.radians(dlat) / 2) ** 2
-    a += np.cos(np.radians(dec1)) \
-        * np.cos(np.radians(dec2)) \
-        * np.sin(np.radians(dlon) / 2) ** 2
-    sep = np.degrees(2 * np.arcsin(np.minimum(1, np.sqrt(a))))
+    # Vincenty formula (sphere): accurate for all separations, whereas the
+    # haversine/arcsin form loses ~1e-7 deg close to antipodal points
+    dlon = np.radians(ra2 - ra1)
+    rdec1 = np.radians(dec1)
+    rdec2 = np.radians(dec2)
+    y = np.hypot(np.cos(rdec2) * np.sin(dlon),
+                 np.cos(rdec1) * np.sin(rdec2)
+                 - np.sin(rdec1) * np.cos(rdec2) * np.cos(dlon))
+    x = np.sin(rdec1) * np.sin(rdec2) \
+        + np.cos(rdec1) * np.cos(rdec2) * np.cos(dlon)
+    sep = np.degrees(np.arctan2(y, x))
     return sep
 
 
